@@ -4,6 +4,11 @@ import json, os
 ROOT = os.path.dirname(os.path.abspath(__file__))
 reg = json.load(open(os.path.join(ROOT, "registry.json")))
 meta = json.load(open(os.path.join(ROOT, "manifest_meta.json")))
+import glob
+for frag in sorted(glob.glob(os.path.join(ROOT, "harness*", "c[0-9][0-9]*", "REGISTRY.json"))):
+    reg.update(json.load(open(frag)))
+for frag in sorted(glob.glob(os.path.join(ROOT, "harness*", "c[0-9][0-9]*", "META.json"))):
+    meta["checks"].update(json.load(open(frag)))
 props = [json.loads(l) for l in open(os.path.join(ROOT, "properties.jsonl"))]
 baseline = json.load(open("/root/.vp/BASELINE.json"))["cmd"] if os.path.exists("/root/.vp/BASELINE.json") else ""
 checks, na = [], []
